@@ -61,6 +61,17 @@ def generate(rng, tier):
                     x = min(max(x, margin), s - 1.0 - margin)
                 pix.append(x)
             pts.append({"pix": pix, "none_bits": rng.choice([0, 0, 0, 1, 2, 3, 5])})
+        if allow_off and len(pts) >= 2 and rng.random() < 0.1:
+            # edge cluster: on one axis every point sits in the first (last) pixel or just off that end of the
+            # array, so the clipped box is one element wide although the raw indices differ
+            a = rng.randrange(nd)
+            low = rng.random() < 0.6
+            for j, p in enumerate(pts):
+                inside = (j % 2 == 0) if j < 2 else rng.random() < 0.5
+                if low:
+                    p["pix"][a] = rng.choice([0, 0.25, -0.25, 0.375]) if inside else rng.choice([-0.75, -1.25, -0.625])
+                else:
+                    p["pix"][a] = shape[a] - 1 + rng.choice([0, 0.25, -0.25, 0.375]) if inside else rng.choice([shape[a] - 0.25, shape[a] + 0.375])
         if rng.random() < 0.03:
             for p in pts:
                 p["none_bits"] = 255
@@ -305,8 +316,21 @@ def run(case):
             outcomes[form] = ("ok", r, item_json(item))
         except Exception as e:
             outcomes[form] = (err_kind(e), f"{type(e).__name__}: {str(e)[:100]}", None)
+    # with points off the array the box is clipped to the array; keepdims still only decides whether
+    # axes on which the clipped box is one element wide are kept, and a one-element result is refused
+    clipped = {a: (max(min(per[a]), 0), min(max(per[a]) + 1, shape[a])) for a in range(nd) if per[a]}
+    some_axis_all_off = any(hi <= lo for lo, hi in clipped.values())
+    clipped_shape = [shape[a] if a not in clipped else clipped[a][1] - clipped[a][0] for a in range(nd)
+                     if a not in clipped or case["keepdims"] or clipped[a][1] - clipped[a][0] != 1]
     for form, (st, r, item) in outcomes.items():
         if off_array:
+            if not some_axis_all_off and any_input:
+                if not clipped_shape:
+                    if st == "ok":
+                        fails.append(f"{form}: single-element result (box clipped to the array) was not refused (shape {r.data.shape})")
+                elif st == "ok" and list(np.asarray(r.data).shape) != clipped_shape:
+                    fails.append(f"{form}: result has shape {tuple(np.asarray(r.data).shape)}; the box clipped to the array "
+                                 f"{ {a: list(v) for a, v in clipped.items()} } with keepdims={case['keepdims']} gives {tuple(clipped_shape)}")
             if st == "ok":
                 data = np.asarray(r.data)
                 _, src = C.decode(data, shape) if data.size else (None, [np.array([])] * nd)
